@@ -389,6 +389,12 @@ func (fc *followerController) highestOffsetUpTo(entryId *proto.EntryId) (int64, 
 
 func (fc *followerController) Replicate(stream proto.OxiaLogReplication_ReplicateServer) error {
 	fc.Lock()
+	if fc.isClosed() {
+		// The wal and the db are gone: a stream that reaches a controller being closed (role change,
+		// shard deletion, shutdown) has nothing to attach to
+		fc.Unlock()
+		return constant.ErrAlreadyClosed
+	}
 	if fc.status != proto.ServingStatus_FENCED && fc.status != proto.ServingStatus_FOLLOWER {
 		fc.Unlock()
 		return constant.ErrInvalidStatus
